@@ -29,7 +29,9 @@ INIT = {"m1.py": M1.encode(), "m2.py": M2.encode(), "pkg": DIR, "pkg/__init__.py
         # a file matched by the default ignored_resources pattern `*~`, and a module that star-imports m2
         "m6.py~": b"def old():\n    return 6\n", "m7.py": b"from m2 import *\n\n\ny = 1\n",
         # a module that imports the packages as wholes: what it sees in them must follow removals and edits of __init__
-        "m8.py": b"import pkg\nimport pkgb\n"}
+        "m8.py": b"import pkg\nimport pkgb\n\n\nr = pkg.sp.m9.n()\n",
+        # a module two packages deep, reached by m8 through the attributes of the outer package
+        "pkg/sp": DIR, "pkg/sp/__init__.py": b"", "pkg/sp/m9.py": b"def n():\n    return 9\n"}
 
 MUT = {
     "W:m2=B": ("W", "m2.py", M2B), "W:m2=C": ("W", "m2.py", M2C), "W:m1=B": ("W", "m1.py", M1B),
@@ -41,11 +43,12 @@ MUT = {
     "Q:files": ("Q", "files"), "Q:find": ("Q", "find"), "Q:m1": ("Q", "mod", "m1.py"), "Q:m2": ("Q", "mod", "m2.py"),
     "Q:occ": ("Q", "occ"), "Q:all": ("Q", "all"), "Q:pkgs": ("Q", "pkgs"),
     "X:W:pkginit": ("XW", "pkg/__init__.py", "PI = 1\n\n\ndef pf():\n    return 2\n"), "X:W:pkginit2": ("XW", "pkg/__init__.py", "\"\"\"doc two\"\"\"\nPJ = 5\n"), "RM:m3": ("RM", "pkg/m3.py"), "Q:m8": ("Q", "mod", "m8.py"),
+    "RM:pkg": ("RM", "pkg"), "W:m9": ("W", "pkg/sp/m9.py", "class N:\n    deep = 1\n\n\ndef n():\n    return N()\n"),
     "MV:m2>m2~": ("MV", "m2.py", "m2.py~"), "MV:m6~>m6": ("MV", "m6.py~", "m6.py"), "Q:m7": ("Q", "mod", "m7.py"),
 }
 ALPHA_FULL = list(MUT)
 ALPHA_SMALL = ["MV:m3>pkgb", "Q:pkgs", "W:m2=B", "W:m1=B", "W:m4", "CF:m4", "MV:m2>pkg", "MV:pkg>pkg2", "RM:m2", "undo", "X:C:m4", "X:RM:m2", "X:C:m2", "Q:all", "Q:m1"]
-NAMES = ["m8", "m6", "m7", "m1", "m2", "m4", "m5", "pkg", "pkg.m3", "pkg.m2", "pkg2", "pkg2.m3", "pkg.sub", "pkgb", "pkgb.m3", "pkgb.m5"]
+NAMES = ["m8", "m6", "m7", "m1", "m2", "m4", "m5", "pkg", "pkg.m3", "pkg.m2", "pkg2", "pkg2.m3", "pkg.sub", "pkg.sp.m9", "pkgb", "pkgb.m3", "pkgb.m5"]
 
 
 class Skip(Exception):
@@ -334,7 +337,7 @@ class C13(Check):
     case_timeout = 900
     budget_thorough = 2400
     level = "model_checking"
-    rule = ("states are event histories over 35 events: 16 mutations through rope (moves of a file across the default ignore pattern `*~` in both directions, content edits that add/remove definitions and "
+    rule = ("states are event histories over 37 events: 18 mutations through rope (removal of a package folder whose name is a prefix of a sibling's, edit of a module two packages deep, moves of a file across the default ignore pattern `*~` in both directions, content edits that add/remove definitions and "
             "imports, create file/folder, move file into package, rename package folder, move onto another module name, remove, "
             "Rename refactoring, undo, redo), 6 changes behind rope's back each followed by validate() (write, write with an older time stamp, create, remove, "
             "move, re-create) and 7 cache-warming queries (incl. the global scope's name table of a star-importing module); every enabled sequence to depth d is replayed on one long-lived real "
@@ -350,7 +353,7 @@ class C13(Check):
     budget_quick = 450
 
     def bound_text(self, tier):
-        return "depth 3 over 35 events" if tier == "quick" else "depth 3 over 35 events; depth 5 over a 15-event sub-alphabet"
+        return "depth 3 over 37 events" if tier == "quick" else "depth 3 over 37 events; depth 5 over a 15-event sub-alphabet"
 
     def cases(self, tier):
         out = []
